@@ -43,6 +43,205 @@ def _digest(res, out, rc, err, argv):
     return fails
 
 
+# ------------------------------------------------------------------ layer 2: every tool funnels its paths through the two functions
+# Metamorphic: a path spelled with leading / repeated slashes, './' and '/./' components (and, for directories and link
+# targets, a trailing '/' or '/.') must be treated exactly like its canonical spelling by every entry point that takes paths:
+# tar member names, tar hard link targets, tar2sqfs --exclude-dir globs, pack file paths and link targets, rdsquashfs path
+# arguments.  A '..' component anywhere must make the tool fail.
+from hypothesis import strategies as st
+from vcommon import Violation, Inconclusive, CaseInfo, Scratch
+import hashlib
+
+NAMES = [b"a", b"b", b"dir", b"skip", b"x.y", b".hid", b"..data", b"sub"]
+
+
+@st.composite
+def funnel_cases(draw, tier="quick"):
+    # a small tree with canonical paths
+    dirs = [b""]
+    nodes = []
+    used = set()
+    for i in range(draw(st.integers(2, 9))):
+        parent = draw(st.sampled_from(dirs))
+        name = draw(st.sampled_from(NAMES))
+        path = parent + b"/" + name if parent else name
+        if path in used:
+            continue
+        used.add(path)
+        files = [n["path"] for n in nodes if n["type"] == "file"]
+        t = draw(st.sampled_from(["dir", "dir", "file", "file", "file", "slink"] + (["hlink", "hlink"] if files else [])))
+        n = dict(path=path, type=t)
+        if t == "dir":
+            dirs.append(path)
+        elif t == "file":
+            n["data"] = b"content of " + path
+        elif t == "slink":
+            n["target"] = draw(st.sampled_from([b"a", b"../x", b"/abs//t/./u"]))
+        else:
+            n["target"] = draw(st.sampled_from(files))
+        nodes.append(n)
+    # one decoration per path use; 0 = canonical
+    deco = lambda: (draw(st.sampled_from([b"", b"", b"/", b"./", b"//", b"././", b"/./"])), draw(st.sampled_from([b"/", b"/", b"//", b"/./", b"/.//"])),
+                    draw(st.sampled_from([b"", b"", b"/", b"/.", b"//"])))
+    return dict(nodes=nodes, deco_name={n["path"]: deco() for n in nodes}, deco_tgt={n["path"]: deco() for n in nodes if n["type"] == "hlink"},
+                what=draw(st.sampled_from(["tar_names", "tar_names", "tar_exclude", "pack_file", "rd_path", "dotdot"])),
+                exclude=draw(st.sampled_from([b"skip/*", b"dir", b"*/sub", b"a*"])), ex_deco=deco(),
+                dd_where=draw(st.sampled_from(["name", "target", "arg"])), dd_style=draw(st.sampled_from([b"../", b"x/../", b"./../", b"x/.././"])))
+
+
+def spell(path, d, is_dir):
+    lead, sep, trail = d
+    if not path:
+        return path
+    return lead + path.replace(b"/", sep) + (trail if is_dir else b"")
+
+
+def _tar(case, names, targets):
+    import tarimg
+    ents = []
+    for n in case["nodes"]:
+        nm = names[n["path"]]
+        base = dict(name=nm, mode=0o755 if n["type"] == "dir" else 0o644, uid=0, gid=0, mtime=1, xattrs={}, enc=dict(fmt="ustar", longname="gnu", num="octal", ostyle=0))
+        if n["type"] == "dir":
+            ents.append(dict(base, type="dir"))
+        elif n["type"] == "file":
+            ents.append(dict(base, type="file", data=n["data"]))
+        elif n["type"] == "slink":
+            ents.append(dict(base, type="slink", mode=0o777, linkname=n["target"]))
+        else:
+            ents.append(dict(base, type="hlink", linkname=targets[n["path"]]))
+    return tarimg.encode_archive(ents, True, False, 0)
+
+
+def _pack(case, names, targets):
+    import treemodel
+    lines = []
+    for n in case["nodes"]:
+        nm = treemodel.pf_quote(b"/" + names[n["path"]] if not names[n["path"]].startswith(b"/") else names[n["path"]])
+        if n["type"] == "dir":
+            lines.append(b"dir " + nm + b" 0755 0 0")
+        elif n["type"] == "file":
+            lines.append(b"file " + nm + b" 0644 0 0 in/" + hashlib.md5(n["path"]).hexdigest().encode())
+        elif n["type"] == "slink":
+            lines.append(b"slink " + nm + b" 0777 0 0 " + treemodel.pf_quote(n["target"]))
+        else:
+            lines.append(b"link " + nm + b" 0 0 0 " + treemodel.pf_quote(targets[n["path"]]))
+    return b"\n".join(lines) + b"\n"
+
+
+def check_case(case, opts):
+    nodes = case["nodes"]
+    if not nodes:
+        raise Inconclusive("empty")
+    isdir = {n["path"]: n["type"] == "dir" for n in nodes}
+    canon_names = {n["path"]: n["path"] for n in nodes}
+    canon_tgts = {n["path"]: n["target"] for n in nodes if n["type"] == "hlink"}
+    sp_names = {p: spell(p, case["deco_name"][p], isdir[p]) for p in canon_names}
+    sp_tgts = {p: spell(t, case["deco_tgt"][p], True) for p, t in canon_tgts.items()}
+    what = case["what"]
+    t2s = vcommon.tool("asan", "tar2sqfs")
+    gen = vcommon.tool("asan", "gensquashfs")
+    rd = vcommon.tool("asan", "rdsquashfs")
+    changed = sum(1 for p in sp_names if sp_names[p] != p) + sum(1 for p in sp_tgts if sp_tgts[p] != canon_tgts[p])
+
+    def judge(r, whatrun):
+        if r.timeout:
+            raise Violation("%s hangs" % whatrun, None, sig="hang")
+        if r.sanitizer():
+            raise Violation("%s: %s" % (whatrun, r.sanitizer()), r.err.decode(errors="replace")[-1500:], sig="sanitizer")
+
+    with Scratch("c18") as sc:
+        def t2s_run(tar, out, extra=()):
+            r = vcommon.run([t2s, "-q", "-c", "gzip", "-b", "4096"] + list(extra) + [out], stdin=tar, timeout=60)
+            judge(r, "tar2sqfs")
+            return r
+
+        def both_images(r1, r2, o1, o2, label):
+            if (r1.rc == 0) != (r2.rc == 0):
+                raise Violation("%s: canonical spelling exits %d, other spelling of the same paths exits %d: %s" % (
+                    label, r1.rc, r2.rc, (r2.err if r2.rc else r1.err)[-200:].decode(errors="replace")), dict(names={k.decode("latin-1"): v.decode("latin-1") for k, v in sp_names.items()},
+                    targets={k.decode("latin-1"): v.decode("latin-1") for k, v in sp_tgts.items()}), sig="spelling-rc")
+            if r1.rc == 0 and open(o1, "rb").read() != open(o2, "rb").read():
+                raise Violation("%s: the image depends on how the same paths are spelled" % label,
+                                dict(names={k.decode("latin-1"): v.decode("latin-1") for k, v in sp_names.items()},
+                                     targets={k.decode("latin-1"): v.decode("latin-1") for k, v in sp_tgts.items()}), sig="spelling-image")
+        o1, o2 = os.path.join(sc, "1.sqfs"), os.path.join(sc, "2.sqfs")
+        if what == "tar_names":
+            r1 = t2s_run(_tar(case, canon_names, canon_tgts), o1)
+            r2 = t2s_run(_tar(case, sp_names, sp_tgts), o2)
+            both_images(r1, r2, o1, o2, "tar2sqfs member names / hard link targets")
+            return CaseInfo(changed >= 1 and r1.rc == 0, ["tar_names"] + (["hardlink_target_spelled"] if any(sp_tgts[p] != canon_tgts[p] for p in sp_tgts) else []))
+        if what == "tar_exclude":
+            ex = case["exclude"]
+            r1 = t2s_run(_tar(case, canon_names, canon_tgts), o1, ["-E", ex])
+            r2 = t2s_run(_tar(case, sp_names, canon_tgts), o2, ["-E", spell(ex, case["ex_deco"], False)])
+            both_images(r1, r2, o1, o2, "tar2sqfs --exclude-dir %r" % ex)
+            return CaseInfo(changed >= 1 and r1.rc == 0, ["tar_exclude"])
+        if what == "pack_file":
+            ind = os.path.join(sc, "in")
+            os.mkdir(ind)
+            for n in nodes:
+                if n["type"] == "file":
+                    with open(os.path.join(ind, hashlib.md5(n["path"]).hexdigest()), "wb") as fh:
+                        fh.write(n["data"])
+            res_ = []
+            for k, (nm, tg) in enumerate(((canon_names, {p: b"/" + t for p, t in canon_tgts.items()}), (sp_names, {p: (b"/" + t if not t.startswith(b"/") else t) for p, t in sp_tgts.items()}))):
+                lf = os.path.join(sc, "list%d.txt" % k)
+                with open(lf, "wb") as fh:
+                    fh.write(_pack(case, nm, tg))
+                r = vcommon.run([gen, "-F", lf, "-D", sc, "-q", "-c", "gzip", "-b", "4096", (o1, o2)[k]], timeout=60)
+                judge(r, "gensquashfs")
+                res_.append(r)
+            both_images(res_[0], res_[1], o1, o2, "gensquashfs pack file paths / link targets")
+            return CaseInfo(changed >= 1 and res_[0].rc == 0, ["pack_file"])
+        if what == "rd_path":
+            r1 = t2s_run(_tar(case, canon_names, canon_tgts), o1)
+            if r1.rc != 0:
+                raise Inconclusive("image build")
+            n = nodes[0] if len(nodes) == 1 else nodes[len(nodes) // 2]
+            flag = "-c" if n["type"] == "file" else ("-l" if n["type"] == "dir" else "-s")
+            a = vcommon.run([rd, flag, b"/" + n["path"], o1], timeout=30)
+            sp = sp_names[n["path"]]
+            b = vcommon.run([rd, flag, sp, o1], timeout=30)
+            judge(a, "rdsquashfs")
+            judge(b, "rdsquashfs")
+            if a.rc != b.rc or a.out != b.out:
+                raise Violation("rdsquashfs %s %r answers differently from %s %r (exit %d vs %d)" % (flag, sp, flag, b"/" + n["path"], b.rc, a.rc), None, sig="spelling-rd")
+            return CaseInfo(sp != n["path"], ["rd_path" + flag])
+        # '..' anywhere must be refused
+        where = case["dd_where"]
+        victim = nodes[-1]
+        bad_names, bad_tgts = dict(canon_names), dict(canon_tgts)
+        label = ""
+        if where == "target" and canon_tgts:
+            p = sorted(canon_tgts)[0]
+            bad_tgts[p] = case["dd_style"] + canon_tgts[p]
+            label = "hard link target %r" % bad_tgts[p]
+        elif where == "arg":
+            r1 = t2s_run(_tar(case, canon_names, canon_tgts), o1)
+            if r1.rc != 0:
+                raise Inconclusive("image build")
+            arg = b"/" + case["dd_style"] + victim["path"]
+            b = vcommon.run([rd, "-s", arg, o1], timeout=30)
+            judge(b, "rdsquashfs")
+            if b.rc == 0:
+                raise Violation("rdsquashfs -s %r (a '..' component) succeeds" % arg, None, sig="dotdot-accepted")
+            return CaseInfo(True, ["dotdot_arg"])
+        else:
+            bad_names[victim["path"]] = case["dd_style"] + victim["path"]
+            label = "member name %r" % bad_names[victim["path"]]
+        r2 = t2s_run(_tar(case, bad_names, bad_tgts), o2)
+        if r2.rc == 0:
+            raise Violation("tar2sqfs accepts %s (a '..' component)" % label, None, sig="dotdot-accepted")
+        if os.path.exists(o2):
+            raise Violation("tar2sqfs refuses %s but leaves an output file" % label, None, sig="dotdot-output")
+        return CaseInfo(True, ["dotdot_" + where])
+
+
+def strat(tier, opts):
+    return funnel_cases(tier)
+
+
 def main(tier, seed, scale=1.0):
     binp = _harness()
     res = Result(PROP)
@@ -68,6 +267,16 @@ def main(tier, seed, scale=1.0):
                 "no growth, guard bytes + ASan, is_filename_sane == spec" % (maxlen, nrc))
     res.samples = ["//a/./b/", "a/../b (refused)", "./.a/..b/\\xc3/", ".../a//", "(random) 40..65536-byte strings of '/', '.', letters, bytes 1..255"]
     res.assumptions = ["harness links the asan build of the current tree's lib/util/src/canonicalize_name.c and filename_sane.c"]
+    # layer 2
+    vbuild.build("asan")
+    n2 = int((3000 if tier == "quick" else 60000) * scale)
+    for d in vcommon.run_shards("c18", "check_case", "strat", n2, seed, tier, {"prop": PROP}):
+        res.merge_shard(d)
+    res.nt_count += len(res.nontrivial)
+    res.rule += ("; layer 2 (tools): generated small trees whose paths are spelled with extra slashes, './' and '/./' components and trailing '/' or '/.' "
+                 "as tar member names, tar hard link targets, --exclude-dir globs, pack file paths and link targets, rdsquashfs path arguments; "
+                 "non-trivial = at least one spelling differs from the canonical one; oracle = same exit status and byte-identical image / output as "
+                 "with canonical spellings, and refusal of every '..'")
     for hx, why, argv in allfails[:3]:
         case = {"hex": hx, "why": why, "argv": argv}
         p = vcommon.save_replay(PROP, case, why)
@@ -78,6 +287,9 @@ def main(tier, seed, scale=1.0):
 def replay(path):
     binp = _harness()
     d = vcommon.load_replay(path)
+    if "hex" not in d["case"]:
+        vbuild.build("asan")
+        return vcommon.replay_case(PROP, check_case, path, {"prop": PROP})
     res = Result(PROP)
     rc, out, err, argv = _run((binp, ["replay", d["case"]["hex"]], {}))
     if rc != 0:
